@@ -19,7 +19,7 @@ CHECKS = {}
 PENDING_REASON = "no check registered yet in this round (construction in progress, see DESIGN.md section 6); not a claim that model checking cannot apply"
 NOT_APPLICABLE = {}
 # checks reviewed by the lead and registered in MANIFEST.json (a reg/*.py file alone does not claim a property)
-CLAIMED = ["C01", "C02", "C03", "C04", "C05", "C06", "C07", "C08", "C10", "C11", "C12", "C13", "C14", "C15", "C16", "C17", "C18", "C19", "C20"]
+CLAIMED = ["C01", "C02", "C03", "C04", "C05", "C06", "C07", "C08", "C09", "C10", "C11", "C12", "C13", "C14", "C15", "C16", "C17", "C18", "C19", "C20"]
 
 
 import glob as _glob
